@@ -219,6 +219,13 @@ fn cr3_tests(t: &mut T) {
     let nf = gen::phys(&mut t.r).0 & PHYS_FRAME_BITS;
     let nframe = PhysFrame::<Size4KiB>::containing_address(PhysAddr::new(nf));
     let nflags = Cr3Flags::from_bits_truncate(t.r.next());
+    // a PCID has 12 bits: 4096 and above are refused (they would spill into the address bits of CR3)
+    for v in [4095u16, 4096, 4097, 0x1000 | (t.r.next() as u16 & 0xfff), 0x8000, 0xffff] {
+        t.rep.eval();
+        if Pcid::new(v).is_ok() != (v < 4096) {
+            t.rep.violation("Pcid::new|accepts-a-value-that-does-not-fit-12-bits", J::U(v as u64));
+        }
+    }
     let npcid = Pcid::new((t.r.next() & 0xfff) as u16).unwrap();
     let nraw = (t.r.next() & 0xfff) as u16;
     let mut one = |t: &mut T, name: &str, expect_written: u64, f: &dyn Fn()| {
@@ -919,6 +926,65 @@ fn own_pushfq() -> u64 {
 
 /// RFLAGS wrappers under single-step: every pushfq is emulated with a chosen prior value (incl. reserved bits, IF,
 /// IOPL) and every popfq is intercepted, so the operand of the write is observed exactly
+/// XCR0 with contents chosen by the test: xgetbv is unprivileged and would report the host's register, so these cases run
+/// in single-step mode where the monitor emulates it (E4); xsetbv traps as usual.
+fn xcr0_step_tests(t: &mut T) {
+    // prior: any 64-bit value whose modelled part is a combination the CPU could hold, plus unmodelled / upper bits
+    let modelled = XCR0_MODELLED();
+    let mut low = t.r.next() & modelled;
+    if !xcr0_valid(low) {
+        low = 0x7;
+    }
+    let prior = low | (t.u64v() & !modelled) | if t.r.chance(1, 2) { 1 << 62 } else { 0 };
+    let run = |f: &mut dyn FnMut() -> u64| -> (u64, Vec<Event>) {
+        trapemu::regs().xgetbv_override = Some(prior);
+        let r = trapemu::trapped(|| {
+            trapemu::step_begin();
+            let v = f();
+            trapemu::step_end();
+            v
+        });
+        trapemu::regs().xgetbv_override = None;
+        r
+    };
+    let (v, evs) = run(&mut || XCr0::read_raw());
+    t.rep.eval();
+    if v != prior || evs.iter().filter(|e| e.kind == K::Xgetbv && e.n == 0).count() != 1 {
+        t.bad("XCr0::read_raw(single-step)", "value-differs-from-register", vec![("register", J::hex(prior)), ("returned", J::hex(v))], &evs);
+    }
+    let (v, evs) = run(&mut || XCr0::read().bits());
+    t.rep.eval();
+    if v != prior & modelled {
+        t.bad("XCr0::read(single-step)", "not-the-modelled-bits-of-raw", vec![("register", J::hex(prior)), ("returned", J::hex(v))], &evs);
+    }
+    // typed write preserves every bit the type does not model
+    let combo = low ^ (t.r.next() & 0xe4 & modelled);
+    if xcr0_valid(combo) {
+        let flags = XCr0Flags::from_bits_truncate(combo);
+        let (_, evs) = run(&mut || {
+            unsafe { XCr0::write(flags) };
+            0
+        });
+        t.rep.eval();
+        let exp = (prior & !modelled) | combo;
+        let w: Vec<&Event> = evs.iter().filter(|e| e.kind == K::Xsetbv).collect();
+        if w.len() != 1 || w[0].n != 0 || w[0].val != exp {
+            t.bad("XCr0::write(single-step)", "unmodelled-bits-not-preserved-or-flags-not-stored", vec![("prior", J::hex(prior)), ("flags", J::hex(combo)), ("expected", J::hex(exp)), ("written", w.first().map(|e| J::hex(e.val)).unwrap_or(J::Null))], &evs);
+        }
+    }
+    // update = read-modify-write
+    let (_, evs) = run(&mut || {
+        unsafe { XCr0::update(|f| f.insert(XCr0Flags::X87)) };
+        0
+    });
+    t.rep.eval();
+    let w: Vec<&Event> = evs.iter().filter(|e| e.kind == K::Xsetbv).collect();
+    if w.len() != 1 || w[0].val != prior | 1 {
+        t.bad("XCr0::update(single-step)", "not-read-modify-write", vec![("prior", J::hex(prior)), ("expected", J::hex(prior | 1)), ("written", w.first().map(|e| J::hex(e.val)).unwrap_or(J::Null))], &evs);
+    }
+    t.rep.class(&format!("XCr0|single-step|upper-bits={}|bit62={}", prior >> 32 != 0, (prior >> 62) & 1));
+}
+
 fn flags_step_tests(t: &mut T) {
     let all = RFlags::all().bits();
     let prior = (t.u64v() & 0xffff_ffff) | 2;
@@ -1171,6 +1237,7 @@ pub fn run(a: &Args, rep: &mut Report) {
         if i % 16 == 0 {
             flags_tests(&mut t);
             flags_step_tests(&mut t);
+            xcr0_step_tests(&mut t);
         }
         if i < 2 {
             let evs = trapemu::events();
